@@ -96,7 +96,9 @@ func (r *Reconnector) Schedule(addr string) {
 func (r *Reconnector) attemptReconnect(addr string) {
 	r.mu.Lock()
 	state, exists := r.states[addr]
-	if !exists || r.closed {
+	// A timer that was already firing when Pause() stopped it still gets here:
+	// no attempt may start while paused (the state is kept for Resume).
+	if !exists || r.closed || r.paused {
 		r.mu.Unlock()
 		return
 	}
@@ -122,9 +124,29 @@ func (r *Reconnector) attemptReconnect(addr string) {
 		return
 	}
 
+	// The state may have been cancelled, reset or replaced while the callback
+	// ran without the lock; it is then no longer ours to re-arm or delete.
+	if cur, ok := r.states[addr]; !ok || cur != state {
+		return
+	}
+
+	// A Schedule() call made while the callback ran (Manager.handleReconnect
+	// makes one itself when the dial fails) has armed a timer. It is
+	// superseded by what is decided below; left armed next to a new timer it
+	// would fire a second attempt far inside the backoff delay.
+	if state.timer != nil {
+		state.timer.Stop()
+		state.timer = nil
+	}
+
 	if err != nil {
 		// Reschedule if still within limits
 		if r.cfg.MaxAttempts == 0 || state.attempts < r.cfg.MaxAttempts {
+			if r.paused {
+				// Paused while the attempt was in flight: keep the state,
+				// arm nothing until Resume() and Schedule().
+				return
+			}
 			delay := r.addJitter(state.nextDelay)
 			state.timer = time.AfterFunc(delay, func() {
 				r.attemptReconnect(addr)
